@@ -517,6 +517,16 @@ Section Forms32NoFlags.
     destruct (read_op i 1 32 s) as [v|]; [|exact G].
     rewrite G. unfold write_op. rewrite K0. cbn [opt_done]. split; reflexivity.
   Qed.
+
+  (* the moffs encoding (A0..A3: accumulator and an absolute address): the same helper call *)
+  Theorem mov_eax_moffs32_refines : i_code i = C_Mov_EAX_moffs32 -> refines32 (SMov 32) (instr_mov_eax_moffs32 c i s).
+  Proof.
+    intros Ec. unfold refines32, instr_mov_eax_moffs32. rewrite Ec.
+    rewrite (bind_ok _ _ _ _ _ (dbg_code_ok c s _ eq_refl)).
+    cbn [isa_exec]. pose proof (cmov32_generic true) as G. cbv iota in G.
+    destruct (read_op i 1 32 s) as [v|]; [|exact G].
+    rewrite G. unfold write_op. rewrite K0. cbn [opt_done]. split; reflexivity.
+  Qed.
 End Forms32NoFlags.
 
 (* ---- r/m32, r32: destination = operand 0 (register or memory), source register = operand 1 ---- *)
